@@ -876,6 +876,8 @@ class Interp:
                 else:
                     out_.append(self.call(func_, [out_[-1], x_], {}, None))
             return out_
+        if path == 'itertools.chain.from_iterable' and len(args) == 1 and _concrete(args[0]):
+            return list(itertools.chain.from_iterable(args[0]))
         if path == 'itertools.chain' and all(_concrete(a) for a in args):
             return list(itertools.chain(*args))
         if self.symbolic and path in ('jnp.asarray', 'jnp.array') and len(args) == 1 and _is_scalar_sym(args[0]):
